@@ -41,7 +41,7 @@ func VerifHarness_C09_ICC_Desc() {
 	var data []byte
 	which := verifC09Case
 	if which < 0 {
-		which = verifChoice(5)
+		which = verifChoice(6)
 	}
 	switch which {
 	case 0:
@@ -75,6 +75,17 @@ func VerifHarness_C09_ICC_Desc() {
 			data = append(data, 0, 0, 0, 2, 0, 0, 0, byte(40+2*i))
 		}
 		data = append(data, 0, 65, 0, 66)
+	case 4:
+		// mluc, record count unconstrained, record size one of the boundary values around
+		// the 12-byte record (smaller than a record, exact, larger), one well-formed record
+		sizes := []uint32{0, 4, 11, 12, 13, 28}
+		sz := sizes[verifChoice(len(sizes))]
+		data = append([]byte("mluc"), 0, 0, 0, 0)
+		data = append(data, verifBytes(4)...) // record count
+		data = append(data, byte(sz>>24), byte(sz>>16), byte(sz>>8), byte(sz))
+		data = append(data, "enUS"...)
+		data = append(data, 0, 0, 0, 2, 0, 0, 0, 28)
+		data = append(data, 0, 65)
 	default:
 		data = verifBytes(verifChoice(10))
 	}
